@@ -40,9 +40,14 @@ func opsExec(raw json.RawMessage, hist []string, deep bool) *bfsResult {
 		if r.Skipped {
 			continue
 		}
-		if r.Sig == "" && !w.Poisoned {
+		// observers are NOT called after every operation (that would refresh any cache before it can go stale): the
+		// alphabets contain an explicit "touch" operation, and every history ends with the light public comparison
+		if op != "touch" && !r.Skipped {
+			w.Dirty = true
+		}
+		if i == len(all)-1 && r.Sig == "" && !w.Poisoned {
 			if sig, what := w.touch(w.M); sig != "" {
-				r.Sig, r.Obs, r.Want = sig, what, "reference encoding"
+				r.Sig, r.Obs, r.Want = sig, what, "what the server holds"
 			}
 		}
 		if r.Sig != "" {
@@ -91,7 +96,7 @@ func opsExec(raw json.RawMessage, hist []string, deep bool) *bfsResult {
 		b, _ := readFileMaybe(w.Dir, f)
 		disk = append(disk, fmt.Sprintf("%d:%x", len(b), keccak(b)[:6]))
 	}
-	res.Key = fmt.Sprintf("%s|now=%d|servers=%v|migr=%v|disk=%v|armed=%s", w.M.valueKey(), w.Now, srvs, migs, disk, w.Armed)
+	res.Key = fmt.Sprintf("%s|now=%d|servers=%v|migr=%v|disk=%v|armed=%s|changed-since-last-touch=%v|state-at-last-touch=%s", w.M.valueKey(), w.Now, srvs, migs, disk, w.Armed, w.Dirty, w.LastTouch)
 	res.Outcome = fmt.Sprintf("devs=%d bans=%d off=%d arch=%d reg=%v", len(w.M.Devices), len(w.M.Bans), w.M.Offset, len(w.M.Archive), w.M.Registered)
 	if !deep || !res.Expand {
 		return res
